@@ -37,17 +37,23 @@ func Satisfies(testExpression string, allowedList []string) (bool, error) {
 	}
 	sortAndDedup(allowedNodes)
 
-	expandedExpression := expressionNode.expand(true)
+	// evaluate the expression tree directly instead of expanding it first: the expansion into
+	// ORed groups of ANDed licenses grows exponentially with the number of ANDed OR groups
+	return expressionNode.satisfiedBy(allowedNodes), nil
+}
 
-	for _, expressionPart := range expandedExpression {
-		if isCompatible(expressionPart, allowedNodes) {
-			// return once any expressionPart is compatible with the allow list
-			// * each part is an array of licenses that are ANDed, meaning all have to be on the allowedList
-			// * the parts are ORed, meaning only one of the parts need to be compatible
-			return true, nil
-		}
+// satisfiedBy returns true if the allowed licenses satisfy the expression rooted at the node.
+// * an AND expression requires both sides to be satisfied
+// * an OR expression requires either side to be satisfied
+// * a license or license reference requires a compatible license in allowed
+func (n *node) satisfiedBy(allowed []*node) bool {
+	if n.isOrExpression() {
+		return n.left().satisfiedBy(allowed) || n.right().satisfiedBy(allowed)
 	}
-	return false, nil
+	if n.isAndExpression() {
+		return n.left().satisfiedBy(allowed) && n.right().satisfiedBy(allowed)
+	}
+	return isCompatible([]*node{n}, allowed)
 }
 
 // stringsToNodes converts an array of single license strings to to an array of license nodes.
